@@ -7,6 +7,7 @@ use schema_harness::ops::*;
 include!(concat!(env!("SCHEMA_GEN_DIR"), "/dispatch.rs"));
 
 fn main() {
+    std::panic::set_hook(Box::new(|_| {}));
     let args: Vec<String> = std::env::args().collect();
     match args.get(1).map(|s| s.as_str()) {
         Some("list") => { for n in NAMES { println!("{n}"); } }
@@ -17,6 +18,8 @@ fn main() {
             let mut od = Odometer::new(nmax, alphabet, ops, nchk);
             let (mut total, mut valid, mut accepted, mut nontrivial) = (0u64, 0u64, 0u64, 0u64);
             let mut seen_ok_end = [false; NPOS];
+            // first disagreement PER PROPERTY LABEL is kept; the enumeration always runs to the end
+            let mut fails: Vec<(&'static str, String)> = vec![];
             while od.next() {
                 total += 1;
                 let t = od.t;
@@ -27,17 +30,21 @@ fn main() {
                 match r {
                     Ok((Ok(()), ok, end)) => { if ok { accepted += 1; seen_ok_end[end.min(NPOS - 1)] = true; } }
                     Ok((Err((prop, what)), _, _)) => {
-                        println!("T-FAIL {name} prop={prop} what={what:?} after={valid} tables={} kv={}", describe(&t), tables_kv(&t));
-                        std::process::exit(1);
+                        if !fails.iter().any(|(p, _)| *p == prop) {
+                            fails.push((prop, format!("T-FAIL {name} prop={prop} what={what:?} after={valid} tables={} kv={}", describe(&t), tables_kv(&t))));
+                        }
                     }
                     Err(_) => {
-                        println!("T-FAIL {name} prop=C04 what=\"generated parser panicked\" after={valid} tables={} kv={}", describe(&t), tables_kv(&t));
-                        std::process::exit(1);
+                        if !fails.iter().any(|(p, _)| *p == "C04") {
+                            fails.push(("C04", format!("T-FAIL {name} prop=C04 what=\"generated parser panicked\" after={valid} tables={} kv={}", describe(&t), tables_kv(&t))));
+                        }
                     }
                 }
             }
+            for (_, l) in &fails { println!("{l}"); }
             let ends = seen_ok_end.iter().filter(|b| **b).count();
-            println!("T-PASS {name} n<={nmax} tables={total} valid={valid} accepted={accepted} rejected={} distinct_end_offsets={ends} nontrivial={nontrivial}", valid - accepted);
+            println!("T-{} {name} n<={nmax} tables={total} valid={valid} accepted={accepted} rejected={} distinct_end_offsets={ends} nontrivial={nontrivial}", if fails.is_empty() { "PASS" } else { "DONE" }, valid - accepted);
+            if !fails.is_empty() { std::process::exit(1); }
         }
         Some("replay") => {
             let name = &args[2];
